@@ -95,6 +95,19 @@ func propC17(run *Run, n int) {
 			break
 		}
 	}
+	// SET + Setkeys(id,k): a member carrying SOME of the set keys changes in two fields (two hunks below one keyed path
+	// element), in memory and through the text
+	for _, ch := range choices {
+		if !ch.inDomain || !ch.m.Has("K") || !ch.m.Has("S") || len(OptSet(ch.m).KeysOf()) < 2 {
+			continue
+		}
+		ks := OptSet(ch.m).KeysOf()
+		a := VArr(VObj(ks[0], VNum(1), "v", VNum(1), "w", VNum(1)), VObj(ks[0], VNum(2), ks[1], VNum(2), "v", VNum(0)))
+		b := VArr(VObj(ks[0], VNum(1), "v", VNum(2), "w", VNum(2)), VObj(ks[0], VNum(2), ks[1], VNum(2), "v", VNum(0)))
+		run.Count("v1:partial-key-member-two-changes")
+		addC17Case(run, ch.m, ch.label+"-partial-key", true, a, b)
+		break
+	}
 	// set readings: a member whose VALUES are permuted among its keys (or a key swapped with its string value) is another
 	// member — fixed cases for every in-domain set / multiset metadata
 	for _, ch := range choices {
